@@ -27,6 +27,7 @@ type SpecEnv struct {
 	nbound  int
 	depth   int
 	noInst  bool
+	callID  string // contract evaluated at a call site: a token unique to that call
 }
 
 func (e *SpecEnv) clone() *SpecEnv {
@@ -263,7 +264,11 @@ func (e *SpecEnv) object(obj types.Object) Val {
 	case *types.Var:
 		arr, sort := u.globalCell(o)
 		l := &Loc{Arr: arr, Sort: sort, Typ: o.Type()}
-		return Val{T: u.load(e.heap, l), Typ: o.Type(), Loc: l}
+		gt := u.load(e.heap, l)
+		if o.Pkg() != nil && o.Parent() == o.Pkg().Scope() && u.globalNonNil(o) {
+			u.emit("(assert " + nonNilTerm(gt, o.Type()) + ")")
+		}
+		return Val{T: gt, Typ: o.Type(), Loc: l}
 	case *types.TypeName:
 		return Val{T: "", Typ: o.Type(), Tup: nil, FieldSrc: nil, Fn: nil, Clo: nil, Loc: nil}
 	case *types.Func:
@@ -555,8 +560,7 @@ func (e *SpecEnv) call(n *ast.CallExpr) Val {
 					return Val{T: "(gs.len " + a.T + ")", Typ: tInt}
 				case *types.Map:
 					dom, _ := u.mapArrs(t)
-					card := u.D.Fun("card:"+shortType(t.Key()), []string{"(Array " + u.D.SortOf(t.Key()) + " Bool)"}, "Int")
-					return Val{T: ite("(= "+a.T+" 0)", "0", app(card, sel(u.hget(e.heap, dom), a.T))), Typ: tInt}
+					return Val{T: ite("(= "+a.T+" 0)", "0", u.cardOf(sel(u.hget(e.heap, dom), a.T), t.Key())), Typ: tInt}
 				case *types.Array:
 					return Val{T: fmt.Sprint(t.Len()), Typ: tInt}
 				}
@@ -573,6 +577,20 @@ func (e *SpecEnv) call(n *ast.CallExpr) Val {
 			case "offof":
 				a := e.expr(n.Args[0])
 				return Val{T: "(sl.off " + a.T + ")", Typ: tInt}
+			case "callid":
+				// callid(): a token unique to the call at which this (callee) contract is applied
+				if e.callID == "" {
+					sfail("callid() outside a contract applied at a call site")
+				}
+				return Val{T: e.callID, Typ: tInt}
+			case "baseof":
+				// baseof(s): identity of the backing array of slice s (0 for a nil slice); two slices
+				// with different bases never share an element
+				a := e.expr(n.Args[0])
+				if _, ok := a.Typ.Underlying().(*types.Slice); !ok {
+					sfail("baseof on %s", a.Typ)
+				}
+				return Val{T: "(sl.base " + a.T + ")", Typ: tInt}
 			case "fresh":
 				a := e.expr(n.Args[0])
 				oldTop := u.top(e.oldHeap)
@@ -583,6 +601,9 @@ func (e *SpecEnv) call(n *ast.CallExpr) Val {
 				return Val{T: "(>= " + refOf(u, a) + " " + refOf(u, b) + ")", Typ: tBool}
 			case "allocated":
 				a := e.expr(n.Args[0])
+				if _, ok := a.Typ.Underlying().(*types.Slice); ok {
+					return Val{T: "(<= (sl.base " + a.T + ") " + u.top(e.heap) + ")", Typ: tBool}
+				}
 				return Val{T: "(<= " + a.T + " " + u.top(e.heap) + ")", Typ: tBool}
 			case "indom":
 				// indom(m, k)
@@ -1019,7 +1040,11 @@ func (e *SpecEnv) applySpec(sp *SpecFunc, argx []ast.Expr) Val {
 			sfail("spec %s: argument %d has type %s, want %s", sp.Name, i+1, v.Typ, pt)
 		}
 		v.Typ = pt
-		v.Loc = nil
+		if !(v.Addr && v.Loc != nil) {
+			// (the address of an embedded object keeps its location: selections through it must
+			// reach the enclosing object's memory)
+			v.Loc = nil
+		}
 		args = append(args, v)
 	}
 	rt := u.W.resolveTypeText(pkg, sp.Ret)
@@ -1055,9 +1080,9 @@ func (e *SpecEnv) applySpec(sp *SpecFunc, argx []ast.Expr) Val {
 }
 
 func (e *SpecEnv) quant(kind string, n *ast.CallExpr) Val {
-	// forall(i, lo, hi, body)
-	if len(n.Args) != 4 {
-		sfail("%s(i, lo, hi, body)", kind)
+	// forall(i, lo, hi, body [, trigger])
+	if len(n.Args) != 4 && len(n.Args) != 5 {
+		sfail("%s(i, lo, hi, body [, trigger])", kind)
 	}
 	id, ok := n.Args[0].(*ast.Ident)
 	if !ok {
@@ -1070,6 +1095,14 @@ func (e *SpecEnv) quant(kind string, n *ast.CallExpr) Val {
 	c.vars[id.Name] = Val{T: bv, Typ: tInt}
 	body := c.expr(n.Args[3])
 	rng := fmt.Sprintf("(and (<= %s %s) (< %s %s))", lo.T, bv, bv, hi.T)
+	if len(n.Args) == 5 {
+		// explicit instantiation pattern (a term mentioning the bound variable)
+		tr := c.expr(n.Args[4])
+		if kind == "forall" {
+			return Val{T: fmt.Sprintf("(forall ((%s Int)) (! (=> %s %s) :pattern (%s)))", bv, rng, body.T, tr.T), Typ: tBool}
+		}
+		return Val{T: fmt.Sprintf("(exists ((%s Int)) (! (and %s %s) :pattern (%s)))", bv, rng, body.T, tr.T), Typ: tBool}
+	}
 	if kind == "forall" {
 		return Val{T: fmt.Sprintf("(forall ((%s Int)) (=> %s %s))", bv, rng, body.T), Typ: tBool}
 	}
